@@ -456,7 +456,7 @@ func c05corruptCase(c *vf.Ctx, i int) {
 
 var c05foreign = []string{"0", "O", "I", "l", " ", "\n", "\t", "\x00", "+", "/", "-", "_", "=", "\x7f", "\x80", "\xff", "é", "１", "Ａ"}
 
-const c05families = 13
+const c05families = 14
 
 func c05forgedCase(c *vf.Ctx, i int) {
 	fam, v := i%c05families, i/c05families
@@ -625,6 +625,20 @@ func c05forgedCase(c *vf.Ctx, i int) {
 			c05check(c, fmt.Sprintf("checksum-byte-%d-wrong", j-78), ref.B58Encode(m))
 		}
 		c.Count("forged_checksum_byte", 4)
+	case 13: // a complete valid 82-byte serialisation as the TAIL of a longer byte string:
+		// junk || zero bytes || valid: decodes to more than 82 bytes, so it is no
+		// extended key, although every fixed-width decoder that drops high-order
+		// overflow sees the valid tail
+		full := c05sum(c05synthetic(r, v%2 == 0, 0))
+		for _, zeros := range []int{0, 1, 2, 3, 6} {
+			j := r.Bytes(1 + r.Intn(8))
+			if j[0] == 0 {
+				j[0] = 1
+			}
+			long := append(append(append([]byte{}, j...), make([]byte, zeros)...), full...)
+			c05check(c, fmt.Sprintf("valid-tail-after-%d-junk-and-%d-zero-bytes", len(j), zeros), ref.B58Encode(long))
+		}
+		c.Count("forged_valid_tail_of_longer_string", 5)
 	}
 }
 
@@ -740,7 +754,7 @@ func init() {
 		Streams: []*vf.Stream{
 			{Name: "roundtrip", N: func(t vf.Tier) int { return t.Sz(6000, 100000) }, Run: c05roundtripCase},
 			{Name: "corrupt", N: func(t vf.Tier) int { return t.Sz(3000, 40000) }, Run: c05corruptCase},
-			{Name: "forged", N: func(t vf.Tier) int { return t.Sz(13*600, 13*10000) }, Run: c05forgedCase},
+			{Name: "forged", N: func(t vf.Tier) int { return t.Sz(14*600, 14*10000) }, Run: c05forgedCase},
 			{Name: "zero-digit-runs", N: func(t vf.Tier) int { return t.Sz(1000, 20000) }, Run: c05zeroRunCase},
 		},
 	})
